@@ -126,7 +126,8 @@ def _syn_var_cfgs(tier):
     out = []
     for c in _syn_cfgs(tier):
         n = codes.build(c).generator_matrix.shape[1]
-        out += codes.with_variants([c], ["1d", "B1", "Bb", "1db", "1d:int64"] + (["ml"] if n <= 12 else []))
+        # two blocks per row square the number of paths: multi-block layouts for n <= 8 (thorough: n <= 15)
+        out += codes.with_variants([c], ["1d", "B1", "1d:int64", "plain"] + (["Bb", "1db"] if n <= (8 if tier == "quick" else 15) else []) + (["ml"] if n <= 12 else []))
     return out
 
 
@@ -151,15 +152,25 @@ def syndrome_lookup(ctx, vcfg):
         if out.ok:
             ctx.ensure("minimum_distance_decoding", ml_claim(P(out.value).reshape(-1), list(P(y)), G))
         return
-    lead = () if name == "1d" else (1,)
-    m, e, r, _ = received_word(ctx, enc, lead, "", t)
+    lay, _, dtn = name.partition(":")
+    lead = () if lay in ("1d", "1db") else (1,)
+    nb = 2 if lay in ("Bb", "1db") else 1  # documented multi-block layout (..., b*n)
+    dtype = getattr(torch, dtn) if dtn else torch.float32
+    m, e, r, _ = received_word(ctx, enc, lead, "", t, blocks=nb, dtype=dtype)
+    if lay == "plain":
+        out = ctx.call(dec.forward, r)  # the default call (no error patterns requested) takes its own return path
+        ctx.ensure("returns", out.ok and isinstance(out.value, torch.Tensor), note=repr(out.exc) if not out.ok else f"t={t} from {src}")
+        if out.ok and isinstance(out.value, torch.Tensor):
+            ctx.ensure("corrects_up_to_t", SP.shape_is(out.value, lead + (k,)) and SP.all_eq(P(out.value), P(m)), note=f"t={t} from {src}")
+            ctx.ensure("input_unmodified", out.unmodified)
+        return
     out = ctx.call(dec.forward, r, return_errors=True)
     ctx.ensure("returns", out.ok, note=repr(out.exc) if not out.ok else f"t={t} from {src}")
     if not out.ok:
         return
     decoded, errors = out.value
-    ctx.ensure("corrects_up_to_t", SP.shape_is(decoded, lead + (k,)) and SP.all_eq(P(decoded), P(m)), note=f"t={t} from {src}")
-    ctx.ensure("reports_error_pattern", SP.shape_is(errors, lead + (n,)) and SP.all_eq(P(errors), P(e)))
+    ctx.ensure("corrects_up_to_t", SP.shape_is(decoded, lead + (nb * k,)) and SP.all_eq(P(decoded), P(m)), note=f"t={t} from {src}")
+    ctx.ensure("reports_error_pattern", SP.shape_is(errors, lead + (nb * n,)) and SP.all_eq(P(errors), P(e)))
     ctx.ensure("input_unmodified", out.unmodified)
 
 
@@ -209,7 +220,7 @@ def _bf_cfgs(tier):
 @obligation(
     "C02.brute_force_ml",
     function=FD + "brute_force_ml.py:BruteForceMLDecoder.forward; " + FD + "brute_force_ml.py:BruteForceMLDecoder._decode_batch; " + FD + "brute_force_ml.py:BruteForceMLDecoder._hamming_distance; " + FD + "brute_force_ml.py:BruteForceMLDecoder._generate_codebook",
-    configs=lambda tier: codes.with_variants(_bf_cfgs(tier), ["1d", "B2", "Bb", "ml"]),
+    configs=lambda tier: codes.with_variants(_bf_cfgs(tier), ["1d", "B2", "Bb", "ml", "lazy", "plain"]),
     timeout_ms=60000,
 )
 def brute_force(ctx, vcfg):
@@ -228,7 +239,21 @@ def brute_force(ctx, vcfg):
         return
     lead = () if name == "1d" else ((2,) if name == "B2" else (1,))
     nb = 2 if name == "Bb" else 1
+    if name == "lazy":
+        # the non-default constructor option: codebook generated on demand inside the call
+        from kaira.models.fec.decoders.brute_force_ml import BruteForceMLDecoder
+
+        if ("lazy", cfg) not in _DEC:
+            _DEC[("lazy", cfg)] = codes.warm(BruteForceMLDecoder(enc, precompute_codebook=False), n)
+        dec = _DEC[("lazy", cfg)]
     m, e, r, _ = received_word(ctx, enc, lead, "", t, blocks=nb)
+    if name == "plain":
+        out = ctx.call(dec.forward, r)
+        ctx.ensure("returns", out.ok and isinstance(out.value, torch.Tensor), note=repr(out.exc) if not out.ok else "")
+        if out.ok and isinstance(out.value, torch.Tensor):
+            ctx.ensure("corrects_up_to_t", SP.shape_is(out.value, lead + (nb * k,)) and SP.all_eq(P(out.value), P(m)), note=f"t={t} from {src}")
+            ctx.ensure("input_unmodified", out.unmodified)
+        return
     out = ctx.call(dec.forward, r, return_errors=True)
     ctx.ensure("returns", out.ok, note=repr(out.exc) if not out.ok else "")
     if not out.ok:
